@@ -154,7 +154,21 @@ var telStems = []struct {
 	{"1206555", 11, "US"}, {"1415555", 11, "US"}, {"1360555", 11, "US"}, {"25078", 12, "RW"}, {"5939", 12, "EC"}, {"447700", 12, "GB"},
 }
 
-var otherSchemes = []string{"facebook", "telegram", "twitterid", "twitter", "mailto", "whatsapp", "ext", "discord", "instagram", "viber", "line", "webchat"}
+// every registered scheme besides tel (checked against urns.Schemes at start-up)
+var otherSchemes = []string{"facebook", "telegram", "twitterid", "twitter", "mailto", "whatsapp", "ext", "discord", "instagram", "viber", "line", "webchat",
+	"slack", "rocketchat", "fcm", "freshchat", "jiochat", "vk", "wechat"}
+
+func init() {
+	have := map[string]bool{"tel": true}
+	for _, s := range otherSchemes {
+		have[s] = true
+	}
+	for _, s := range urns.Schemes {
+		if !have[s.Prefix] {
+			panic("c19: URN scheme " + s.Prefix + " is registered in gocommon but not generated by the twin generator")
+		}
+	}
+}
 
 // genPath returns path and display for a scheme
 func genPath(r *hx.Rand, scheme string) (string, string) {
@@ -182,6 +196,27 @@ func genPath(r *hx.Rand, scheme string) (string, string) {
 		return letters(r, 10) + digits(r, 6), ""
 	case "line":
 		return letters(r, 12), ""
+	case "slack":
+		return "U" + strings.ToUpper(letters(r, 4)) + digits(r, 4), ""
+	case "rocketchat":
+		return letters(r, 9) + digits(r, 8), letters(r, 5)
+	case "fcm":
+		return letters(r, 20) + digits(r, 6), ""
+	case "vk", "jiochat":
+		return digits(r, 10), ""
+	case "wechat":
+		return "o" + letters(r, 12) + digits(r, 4), ""
+	case "freshchat":
+		hex := func(n int) string {
+			const al = "0123456789abcdef"
+			var sb strings.Builder
+			for i := 0; i < n; i++ {
+				sb.WriteByte(al[r.Intn(16)])
+			}
+			return sb.String()
+		}
+		uu := func() string { return hex(8) + "-" + hex(4) + "-" + hex(4) + "-" + hex(4) + "-" + hex(12) }
+		return uu() + "/" + uu(), ""
 	case "webchat":
 		const al = "abcdefghijklmnopqrstuvwxyzABCDEFGHIJKLMNOPQRSTUVWXYZ0123456789"
 		var sb strings.Builder
@@ -639,6 +674,9 @@ func corpusScenarios() []*scenario {
 	dg.Contact.Slots[0].Affinity = chDangling
 	dg.SetChannel, dg.SetChannelIdx = true, 2
 	out = append(out, dg)
+	// schemes whose names start with letters of "urns." (a prefix stripped as a character set would eat them)
+	sl := base("slack-and-rocketchat-urns", 0, "", fixed("slack", "slack:U024BE7LH", "slack:U99ZZZ111"), fixed("rocketchat", "rocketchat:abc123456789#bob", "rocketchat:zzz987654321#alice"))
+	out = append(out, sl)
 	// MEMBERSHIP PROBE: add_contact_urn with the number side A holds (one tel channel: no channel divergence)
 	pb := base("add-urn-probe-held-by-one-twin", 0, "", fixed("tel", "tel:+12065551212", "tel:+12065553434"))
 	pb.AddURN, pb.AddURNProbe = true, 1
